@@ -23,8 +23,10 @@ CONSTANTS Menu,          \* entry kinds the tables are made of (Kinds | KindsCor
 \* option sets usable from a .cfg: ContOpts <- ContOptsAll | ContOptsMain (MountsBase)
 \* which maskable procfs entries exist, mount flags of the file systems holding the sources
 ProcSome == { [p |-> <<"keys">>, t |-> "f"], [p |-> <<"timer_list">>, t |-> "f"], [p |-> <<"acpi">>, t |-> "d"] }
-EnvHere  == [proc |-> ProcSome, srcfl |-> {"RELATIME"}, lockfl |-> {"NOSUID", "NODEV", "NOEXEC", "RELATIME"}]
-EnvOther == [proc |-> ProcSome, srcfl |-> {"NOSUID", "NODEV", "RELATIME"}, lockfl |-> {"NOSUID", "NOATIME"}]
+EnvHere  == [proc |-> ProcSome, srcfl |-> {"RELATIME"}, lockfl |-> {"NOSUID", "NODEV", "NOEXEC", "RELATIME"},
+             sharefl |-> {"RELATIME"}, shared |-> TRUE]
+EnvOther == [proc |-> ProcSome, srcfl |-> {"NOSUID", "NODEV", "RELATIME"}, lockfl |-> {"NOSUID", "NOATIME"},
+             sharefl |-> {"NOSUID", "RELATIME"}, shared |-> FALSE]
 EnvsOne  == { EnvHere }
 EnvsTwo  == { EnvHere, EnvOther }
 
@@ -37,8 +39,8 @@ CfgSeq  == TLCEval(SetToSeq(Cfgs))
 EnvSeq  == TLCEval(SetToSeq(Envs))
 ProgSeq == TLCEval([i \in DOMAIN CfgSeq |-> TLCEval([e \in DOMAIN EnvSeq |-> TLCEval(Prog(CfgSeq[i], EnvSeq[e]))])])
 
-VARIABLES ci, ei, pc, st
-vars == <<ci, ei, pc, st>>
+VARIABLES ci, ei, pc, st, hm      \* hm: the host has mounted below the shared sources (program running)
+vars == <<ci, ei, pc, st, hm>>
 cfg  == CfgSeq[ci]
 env  == EnvSeq[ei]
 prog == ProgSeq[ci][ei]
@@ -48,6 +50,7 @@ Init ==
   /\ ei \in DOMAIN EnvSeq
   /\ pc = 1
   /\ st = St0
+  /\ hm = FALSE
 
 Running == pc <= Len(prog) /\ ~st.fail
 Done    == pc > Len(prog) /\ ~st.fail
@@ -61,7 +64,7 @@ NextPc(s, p) == SkipFrom(s, p + 1)
 At(k) == Running /\ prog[pc].k = k
 Step  == /\ st' = Apply(st, prog[pc], env)
          /\ pc' = NextPc(st', pc)
-         /\ UNCHANGED <<ci, ei>>
+         /\ UNCHANGED <<ci, ei, hm>>
 MakePrivate == At("private")   /\ Step      \* mount("none", "/", MS_REC|MS_PRIVATE)
 MountRoot   == At("mountroot") /\ Step      \* mount("tmpfs", root, "tmpfs")
 Chdir       == At("chdir")     /\ Step
@@ -82,7 +85,13 @@ MaskBindTmp == At("maskbinde") /\ Step      \* ... bound over the file ...
 MaskRemount == At("maskro")    /\ Step      \* ... read-only ...
 MaskRmTemp  == At("maskrm")    /\ Step      \* ... and unlinked
 
-Next == \/ MakePrivate \/ MountRoot \/ Chdir \/ Mkdir \/ Mknod \/ Mount \/ Statfs \/ Remount
+\* environment: while the program runs the host mounts a file system below every shared source
+HostMount == /\ pc > Len(prog) /\ ~st.fail /\ ~hm
+             /\ st' = HostMounted(st, env)
+             /\ hm' = TRUE
+             /\ UNCHANGED <<ci, ei, pc>>
+
+Next == \/ HostMount \/ MakePrivate \/ MountRoot \/ Chdir \/ Mkdir \/ Mknod \/ Mount \/ Statfs \/ Remount
         \/ PivotRoot \/ Umount \/ Rmdir \/ Symlink \/ MaskBind \/ MaskStat \/ MaskTmpfs
         \/ MaskMkTemp \/ MaskBindTmp \/ MaskRemount \/ MaskRmTemp
 Spec == Init /\ [][Next]_vars
@@ -96,11 +105,15 @@ ASSUME NoVacuousAction ==
 \* every table of the menu can be built: no syscall of the sequence fails fatally
 NoFailure == ~st.fail
 \* the state machine and the fold used by the judge are the same function
-FoldAgrees == Done => st = Final(cfg, env)
+FoldAgrees == (Done /\ ~hm) => st = Final(cfg, env)
 \* the host tree is reachable only until the old root is detached, and the program never runs before
 HostOnlyDuringSetup == Done => ~HostReachable(st)
 
-\* the property sentence, in the state in which the program starts
+\* no mount of the sandbox receives propagation from the host
+NoPropagation == Done => AllPrivate(st)
+
+\* the property sentence, in the state in which the program starts and after the host mounted
+\* something below the shared sources (Done holds in both)
 RootIsReadOnly      == Done => RootReadOnly(st, env)
 OldRootUnreachable  == Done => OldRootGone(st, env)
 OnlyConfiguredNames == Done => OnlyConfigured(cfg, st, env)
@@ -111,5 +124,5 @@ WritableIffDecl     == Done => WritableIffDeclared(cfg, st, env)
 MaskedRevealNothing == Done => MasksHold(cfg, st, env)
 
 \* printed with counterexamples
-Alias == [cfg |-> cfg, env |-> env, pc |-> pc, op |-> IF pc <= Len(prog) THEN prog[pc] ELSE "end", st |-> st]
+Alias == [cfg |-> cfg, env |-> env, pc |-> pc, hm |-> hm, op |-> IF pc <= Len(prog) THEN prog[pc] ELSE "end", st |-> st]
 =============================================================================
